@@ -5,18 +5,19 @@ from checklib import sh, VERIF
 MODULE = "Feox.Props.C18"
 THEOREMS = ['Feox.C18.lock_order_acyclic', 'Feox.C18.no_lock_cycle', 'Feox.C18.call_terminates_alone',
             'Feox.C18.step_returns_or_progresses', 'Feox.C18.retirement_completes', 'Feox.C18.reader_never_blocked',
-            'Feox.C18.retry_bounds', 'Feox.Conc.solo_progress', 'Feox.Conc.solo_terminates']
+            'Feox.C18.retry_bounds', 'Feox.C18.final_flush_terminates', 'Feox.C18.stale_read_loop_bounded', 'Feox.Conc.Loops.bounded', 'Feox.Conc.Loops.unguarded_arm_runs_forever', 'Feox.Conc.solo_progress', 'Feox.Conc.solo_terminates']
 
 ASSUME = [
     "bounded time on a real scheduler (thread fairness, channel wake-ups, kernel I/O latency) is runtime behaviour the model cannot exhibit: what is proved is deadlock- and livelock-freedom of the modelled protocols",
     "tools/gen_locks.py (translator of guard lifetimes in write_buffer.rs / persistence.rs into Feox.Gen.lockEdges, regenerated on this run) follows `let g = x.write()` guards to the end of their block or drop(g), statement temporaries, and calls transitively; locks inside scc / crossbeam / parking_lot internals and the io.rs process-wide registries are not in its scope",
+    "tools/gen_loops.py (translator of the final-flush loop of write_buffer_worker into Feox.Gen.finalFlushArms, regenerated on this run) reads each match arm's top-level statements: break, `counter += 1`, `if counter == LIMIT { .. break }`, other conditional exits; it fails loudly on control flow it does not understand; what flush_worker_shards returns in each round is an arbitrary input of the theorem",
     "hypotheses of the property: no reader stays inside a read forever, the device keeps answering",
 ]
 
 RULE = ("every scheduled case of the conc engine (2-4 threads parked and released at the hooked points), every read/retirement race and every contention case runs under a 20 s watchdog per wait: "
         "a worker that neither reaches a scheduling point nor returns, a flush() or a drop that does not return is a violation with the schedule as replay; "
         "contention cases: 2 writers (insert/delete/increment/CAS, values up to 3 blocks), 1 reader (get/range), 2 concurrent flush() callers on 3 keys, unscheduled, on a healthy 256-block device, "
-        "a 20-30 block device that fills up (OutOfSpace paths), and devices whose writes and fsyncs all fail from a random point on (poisoning / quarantine paths), followed by flush() and drop. Distinct = SHA-1 of (operation, answer).")
+        "a 20-30 block device that fills up (OutOfSpace paths), and devices that fail from a random point on - every write and fsync (poisoning / quarantine paths), record-data writes only (the error stays retryable: the final flush at shutdown goes through all its 1024 retries), fsyncs only, journal / metadata writes only - for good or for a short burst, followed by flush() and drop (drop under three watchdog periods). Distinct = SHA-1 of (operation, answer).")
 
 
 def run(ctx):
@@ -25,5 +26,10 @@ def run(ctx):
     if r.returncode != 0:
         violation(ctx, "the lock-nesting translator could not classify the source: " + (r.stdout + r.stderr)[-400:],
                   "# translator tools/gen_locks.py failed; theorem Feox.C18.lock_order_acyclic cannot be re-checked\n" + r.stdout + r.stderr, no_input=True, tag="locks")
+    r = sh(["python3", os.path.join(VERIF, "tools", "gen_loops.py")])
+    ctx.log(r.stdout.strip() or r.stderr.strip())
+    if r.returncode != 0:
+        violation(ctx, "the retry-loop translator could not read the final-flush loop: " + (r.stdout + r.stderr)[-400:],
+                  "# translator tools/gen_loops.py failed; theorem Feox.C18.final_flush_terminates cannot be re-checked\n" + r.stdout + r.stderr, no_input=True, tag="loops")
     return conc_check(ctx, MODULE, THEOREMS, ['C18', 'C07'], "termination", ASSUME,
                       extra_quick=('cases=60', 'races=6', 'contend=25'), extra_thorough=('cases=1500', 'races=80', 'contend=600'), rule=RULE)
